@@ -5,6 +5,7 @@ import OvniModel.Lemmas.SystemOrder
 import OvniModel.Lemmas.SystemConflict
 import OvniModel.Lemmas.SystemContent
 import OvniModel.Lemmas.SystemSafe
+import OvniModel.Lemmas.SystemDirname
 
 /-!
 # C15 — metadata merge is distribution-independent; conflicts are refused cleanly
@@ -150,6 +151,46 @@ example : RelpathsDistinct wBig ∧ RelpathsDistinct wBig' ∧ build .asIs wBig 
   decide
 
 example : SameUnion wBig wBig' := by decide
+
+/-! ## The directory names do not matter either (ranks distinct) -/
+
+/-- The stable sorts fall back on insertion order, i.e. on `trace_load`'s
+    relpath order, only when sort keys tie; pids, tids, physical ids and loom
+    names never tie, ranks might.  So when no rank is claimed by two processes
+    (`RanksDistinct`, decidable) the result does not even depend on how the
+    stream directories are named (`SameUnionMod`: same threads up to relpath,
+    same facts; relpaths need not be distinct). -/
+theorem build_dirname_independent_partial (ss ss' : List StreamMeta)
+    (hu : SameUnionMod ss ss') (hr : RanksDistinct ss)
+    (hc : build .asIs ss ≠ .crash) (hc' : build .asIs ss' ≠ .crash) :
+    (build .asIs ss).okPart = (build .asIs ss').okPart :=
+  okPart_eq_of_transfer (fun _ hb => build_ok_transferMod hu hr hc' hb)
+    (fun _ hb => build_ok_transferMod hu.symm (hr.transfer hu) hc hb)
+
+theorem build_dirname_independent_fixed (ss ss' : List StreamMeta)
+    (hu : SameUnionMod ss ss') (hr : RanksDistinct ss) :
+    (build .fixed ss).okPart = (build .fixed ss').okPart :=
+  okPart_eq_of_transfer (fun _ hb => build_ok_transferMod hu hr (build_fixed_ne_crash _) hb)
+    (fun _ hb => build_ok_transferMod hu.symm (hr.transfer hu) (build_fixed_ne_crash _) hb)
+
+/-- Two processes of one loom both claiming rank 0; directories `a`, `b`. -/
+def wTie : List StreamMeta :=
+  [ mkStream [97] [110] 4 40 (some 1) (some [(0, 0)]) (some 0) (some 2),
+    mkStream [98] [110] 5 50 (some 2) none (some 0) (some 2) ]
+/-- The same with the two directory names exchanged. -/
+def wTie' : List StreamMeta :=
+  [ mkStream [98] [110] 4 40 (some 1) (some [(0, 0)]) (some 0) (some 2),
+    mkStream [97] [110] 5 50 (some 2) none (some 0) (some 2) ]
+
+/-- `RanksDistinct` cannot be dropped: with a rank tie the directory names
+    decide the order of the rows (this is the code's documented stable-sort
+    behaviour, not a defect: the union here is itself ambiguous). -/
+theorem dirname_matters_on_rank_ties :
+    SameUnionMod wTie wTie' ∧ ¬ RanksDistinct wTie ∧
+    (build .fixed wTie).okPart ≠ (build .fixed wTie').okPart ∧
+    (build .asIs wTie).okPart ≠ (build .asIs wTie').okPart := by decide
+
+example : SameUnionMod wBig wBig' ∧ RanksDistinct wBig := by decide
 
 /-! ## order_spec -/
 
